@@ -86,7 +86,7 @@ MIN_OBS = {
                  'retries_judged': 15000, 'quiescence_checks': 60000, 'disconnects': 12000, 'exhaustive_gap_cases': 585, 'send_failure_sweep_cases': 144},
 }
 SHARD_TIMEOUT = {'quick': 600, 'thorough': 5400}
-N_RANDOM = {'quick': 5000, 'thorough': 60000}
+N_RANDOM = {'quick': 5000, 'thorough': 250000}
 EXHAUSTIVE = {'quick': False, 'thorough': False}   # only the named sub-space is exhaustive
 WHAT_FAILS = {
     'lost-call:track-while-worker-finishing': 'a track_user call that runs between the worker task returning and its '
